@@ -195,6 +195,9 @@ class ControlFlowTransformer(converter.Base):
     # Variables that are modified inside the scope, and depend on values outside
     # it.
     input_only = basic_scope_vars & live_in - live_out
+    # Nonlocals and globals remain observable after the function returns, so
+    # they are outputs even when this function does not read them again.
+    input_only = input_only - fn_scope.nonlocals - fn_scope.globals
 
     # Place the outputs first, then sort lexicographically.
     scope_vars = sorted(scope_vars, key=lambda v: (v in input_only, v))
